@@ -57,6 +57,9 @@ func unhx(s string) []byte {
 type chunkReader struct {
 	chunks [][]byte
 	pos    int
+	// eofWithData: the Read that delivers the last byte returns it together with io.EOF
+	// (as iotest.DataErrReader and HTTP bodies of known length do) instead of on a later call.
+	eofWithData bool
 }
 
 func (c *chunkReader) Read(p []byte) (int, error) {
@@ -73,6 +76,9 @@ func (c *chunkReader) Read(p []byte) (int, error) {
 		c.chunks = c.chunks[1:]
 	}
 	c.pos += n
+	if c.eofWithData && len(c.chunks) == 0 {
+		return n, io.EOF
+	}
 	return n, nil
 }
 
@@ -89,6 +95,9 @@ func newChunkReader(data []byte, sizes []int) *chunkReader {
 	if pos < len(data) {
 		c.chunks = append(c.chunks, data[pos:])
 	}
+	// every other reader hands out its last byte together with io.EOF (both are legal
+	// io.Reader behaviours and must not be told apart by a decoder)
+	c.eofWithData = (len(data)+len(sizes))%2 == 1
 	return c
 }
 
